@@ -230,7 +230,7 @@ CHECKS["C20"] = {
          "thorough": {"params": {"maxreps": 3, "budget": 1}, "sample_models": 120, "sample_every": 211},
          "what": "generated __resolve_entities on lists of 0..2 (quick) / 0..3 (thorough) representations over 11 shapes with at most one failing lookup (error / panic)"},
         {"probe": "fed", "harness": "Harness_C20_entities", "setup": "Setup_C20_entities", "reach": ["c20.compared"], "workers": 12, "sched": "first", "tag": "-requires",
-         "configs_quick": ["fed_explicit", "fed_computed"], "configs_thorough": ["fed_explicit"],
+         "configs_quick": ["fed_explicit", "fed_computed", "fed_single"], "configs_thorough": ["fed_explicit", "fed_single"],
          "quick": {"params": {"maxreps": 3, "budget": 1, "shapes": 4, "requires": 1}, "sample_models": 20, "sample_every": 23},
          "thorough": {"params": {"maxreps": 3, "budget": 2, "shapes": 4, "requires": 1}, "sample_models": 20, "sample_every": 97},
          "what": "@requires under explicit_requires (user populator called with the entity's own representation) and computed_requires (the requiring field's resolver receives the representation at the entity's result index): lists of 0..3 representations over {plain entity, batch entity, requiring entity, unknown type}, one [two] failing lookups"},
@@ -299,8 +299,8 @@ CHECKS["C05"]["harnesses"].append(
 
 CHECKS["C15"]["harnesses"].append(
     dict(_HTTP, harness="Harness_C15_server", setup="Setup_C15_server", reach=["c15.server"], workers=8,
-         quick={"params": {"hist": 2}, "sample_models": 40, "sample_every": 5}, thorough={"params": {"hist": 3, "texts": 5}, "sample_models": 60, "sample_every": 47, "workers": 14},
-         what="histories of 2 [3, over the first 5 texts] HTTP requests through one Server (POST/GET transports with the recycled parameter object, APQ extension, executor) over 7 request kinds x 2 texts incl. bodies that fail decoding after query/extensions were read, against the model hash -> text"))
+         quick={"params": {"hist": 2}, "sample_models": 40, "sample_every": 5}, thorough={"params": {"hist": 3, "texts": 4}, "sample_models": 60, "sample_every": 47, "workers": 14},
+         what="histories of 2 [3, over the first 4 texts] HTTP requests through one Server (POST/GET transports with the recycled parameter object, APQ extension, executor) over 7 request kinds x 2 texts incl. bodies that fail decoding after query/extensions were read, against the model hash -> text"))
 
 CHECKS["C14"]["harnesses"].append(
     {"pkg": "graphql/handler/extension", "harness": "Harness_C14_variables", "setup": "Setup_C14_walk", "reach": ["c14.vars.accepted", "c14.vars.rejected"], "workers": 6,
@@ -424,3 +424,21 @@ for _p in ("C05", "C07"):
         dict(_WS, harness="Harness_C11_run", reach=["c11.run", "c11.run.op"], race=True, sched_confirm=True,
              quick={"params": {"maxlen": 2}, "sample_models": 8, "sample_every": 31}, thorough={"params": {"maxlen": 3}, "workers": 12, "sample_models": 12, "sample_every": 301},
              what="websocket reader loop on every client script of <=2 [3] frames with long-lived operations: per-id frames, stop / close cancel every affected operation, all goroutines end (shared with C11)"))
+
+# websocket frames of any type and order must not make gqlgen's own code panic (C10): the reader loop and the handshake
+CHECKS["C10"]["harnesses"].append(
+    dict(_WS, harness="Harness_C11_run", reach=["c11.run", "c11.run.op"], race=True, sched_confirm=True,
+         quick={"params": {"maxlen": 2}, "sample_models": 8, "sample_every": 31}, thorough={"params": {"maxlen": 3}, "workers": 12, "sample_models": 12, "sample_every": 301},
+         what="websocket reader loop on every client script of <=2 [3] frames (start / stop of known and unknown ids, ping, pong, terminate, unexpected and unreadable frames): no panic of gqlgen's own, protocol close (shared with C11)"))
+CHECKS["C10"]["harnesses"].append(
+    dict(_WS, harness="Harness_C11_init", reach=["c11.init.accepted", "c11.init.refused"], quick={"sample_models": 12, "sample_every": 29},
+         what="websocket handshake: 15 first-frame kinds x 6 payload shapes x 4 init functions x 2 subprotocols: ack or protocol close, never a panic (shared with C11)"))
+# the incremental-delivery transport turns the payload sequence's hasNext into the closing boundary (C13's termination clause at the transport)
+CHECKS["C13"]["harnesses"].append(
+    dict(_WS, harness="Harness_C12_multipart", reach=["c12.multipart"], quick={"sample_models": 20, "sample_every": 5}, thorough={"params": {"maxinc": 5}, "sample_models": 40, "sample_every": 29, "workers": 12},
+         what="multipart/mixed aggregator over 1 + 0..3 [5] payloads with a flush tick at every point: the closing boundary follows exactly the payload whose hasNext is false, however payloads are batched (shared with C12)"))
+
+CHECKS["C16"]["harnesses"].append(
+    {"probe": "core", "harness": "Harness_C16_configuredSchema", "setup": "Setup_C16_configuredSchema", "reach": ["c16.configured"], "workers": 4, "sched": "first",
+     "configs_quick": ["single", "follow"], "configs_thorough": ["single", "follow", "funcsyn"], "quick": {"sample_models": 10},
+     "what": "generated __schema / __type(name:) (literal and through a variable, aliased) on a server built with a configured schema that is a reduced view of the compiled-in one: both describe the configured schema and agree"})
